@@ -11,9 +11,11 @@
   * `smwpm_toric_syndrome_ideal` — one row: the syndrome itself.
   The endpoint lemma of `RotatedToricPauli.path` is C15's `path_syndrome_vector` (proved for all sizes).
 
+  PROVED ELSEWHERE (Props/C02/SmwpmEven.lean): the number of defective clusters is even whenever the XOR of the rows is
+  the syndrome of an error — `smwpm_toric_assert_never_fires(_reachable)`; the `assert` fires iff the number of X-type
+  defects is odd (`smwpm_toric_assert_iff`), which happens for arbitrary bit arrays (`assert_fires_bounded`).
+
   STATED, NOT PROVED:
-  * the number of defective clusters is even whenever the XOR of the rows is the syndrome of an error (then the
-    numbers of X- and of Z-defects are even, C07); for arbitrary bit arrays it can be odd and qecsim's `assert` fires;
   * the t-parity outputs (`custom_values`, `success`) as functions of the matchings — their bookkeeping is
     Model/Ftp.lean / Props/C03.lean with the clusters as parameters.
 -/
